@@ -197,6 +197,8 @@ Part 2, synchronisation.  `WF r`: a present leader has a non-zero peer id (0 is 
   (cache and next index), for every reachable history buffer and every list of changes.
 * `broadcast_messages_exact` – the broadcast messages for any sequence of changes are exactly the accepted
   changes, once each, in order, with chained start indexes.
+* `merged_broadcast_exact` – a batch of pending changes sent as one message decodes to the same regions, in order,
+  as the changes' own messages (a region reported twice keeps both of its leaders).
 * `full_sync_unfixed_counterexample` – F3 on the pinned tree before the repair.
 -/
 
@@ -425,6 +427,43 @@ theorem broadcast_messages_exact (rs : List Region) (hwf : ∀ r ∈ rs, WF r) :
       simp only [List.length_singleton]
       have : (record l.hist r false).index = l.hist.index + 1 := (record_fields l.hist r false).2.2.2.2.1
       rw [← this]; exact h3
+
+/-- the messages `leaderPutsMsgs` builds are square -/
+theorem leaderPutsMsgs_square (rs : List Region) : ∀ l : Leader, ∀ m ∈ leaderPutsMsgs l rs, Square m := by
+  induction rs with
+  | nil => intro l m hm; cases hm
+  | cons r rs ih =>
+    intro l m hm
+    simp only [leaderPutsMsgs] at hm
+    by_cases hs : isStale l.cache r = true
+    · have : leaderPut l r = (l, none) := by simp [leaderPut, hs]
+      rw [this] at hm
+      exact ih _ m hm
+    · have hs' : isStale l.cache r = false := by simpa using hs
+      have h1 : leaderPut l r = ({ l with cache := putRegion l.cache r, hist := record l.hist r false },
+          some { start := l.hist.index, regions := [r.md], stats := [r.stat], leaders := [wireLeader r] }) := by
+        simp [leaderPut, hs']
+      rw [h1] at hm
+      rcases List.mem_cons.1 hm with rfl | hm'
+      · exact ⟨rfl, rfl⟩
+      · exact ih _ m hm'
+
+
+/-- **One message for a drained batch.**  When `RunServer` finds several changes pending and sends them as one
+    message, the follower decodes from it exactly what it would decode from the changes' own messages, in the same
+    order – a region reported twice appears twice, each time with its own leader and flow. -/
+theorem merged_broadcast_exact (ms : List Msg) (h : ∀ m ∈ ms, Square m) (m' : Msg) (hm : mergeMsgs ms = some m') :
+    decode m' = ms.flatMap decode ∧ m'.start = (ms.head?.map (·.start)).getD 0 := by
+  cases ms with
+  | nil => simp [mergeMsgs] at hm
+  | cons m ms =>
+    simp only [mergeMsgs, Option.some.injEq] at hm
+    subst hm
+    have hsq := flatMap_square (m :: ms) h
+    refine ⟨?_, by simp⟩
+    rw [decode_square _ ⟨hsq.1, hsq.2⟩]
+    exact decodeAux_flatMap (m :: ms) h
+
 
 /-- a live follower (bound stream) that equals the leader stays equal when a changed region is
     broadcast -/
